@@ -17,12 +17,15 @@ def preamble(cfg):
     g0 = gs[0]
     lines.append("para 0 %d %d %d %d 1 %s" % (g0["off"], g0["size"], g0["type"], 1 if g0["en"] else 0, " ".join(str(x) for x in d[g0["off"]:g0["off"] + g0["size"]])))
     for k, g in enumerate(gs[1:], start=1):
+        if g["type"] == 0:          # a gap: this sub-index does not exist
+            continue
         lines.append("paraalias %d 0 %d %d %d %d %d 1" % (k, g["off"] - g0["off"], g["off"], g["size"], g["type"], 1 if g["en"] else 0))
     objs = []
     for idx, typ in ((0x1010, 17), (0x1011, 18)):
         objs.append([idx, 0, 130, typ, len(gs)])
         for k in range(len(gs)):
-            objs.append([idx, k + 1, 3, typ, k])
+            if gs[k]["type"] != 0:
+                objs.append([idx, k + 1, 3, typ, k])
     lines += node_common.std_dict(dict(n=cfg["n"], hb=0, hc=[], objs=objs + [[0x2100, 0, 7, 0, 0], [0x2101, 0, 7, 0, 0]]))
     lines += ["init", "start"]
     return lines
@@ -30,12 +33,12 @@ def preamble(cfg):
 def run(ctx):
     q = ctx.tier == "quick"
     ctx.assumptions += [
-        "layouts: A one group (3 bytes, reset communication), B sub-index 1 = all + an application group (2 bytes, reset node) + a communication group (3 bytes), C as B with the communication group not enabled for storing on command; groups share one RAM / NVM image (sub-index 1's group is the union of the others)",
+        "layouts: A one group (3 bytes, reset communication), B sub-index 1 = all + an application group (2 bytes, reset node) + a communication group (3 bytes), C as B with the communication group not enabled for storing on command, D as B with a gap in the sub-index list (sub-indices 1, 2, 4); groups share one RAM / NVM image (sub-index 1's group is the union of the others)",
         "events: 'save'/'load' and wrong signatures to every sub-index, RAM modifications, power cycle (RAM back to the compiled-in image, NVM kept), NMT reset node / communication, k-th next NVM driver call returning a short count (k = 1,2), CONodeGetErr",
         "NVM starts zeroed; a short count is modelled as a partial transfer of the first bytes",
         "the abort code of a refused signature / failed store is not asserted (the statement only demands a refusal)",
     ]
-    cfgs = ["A", "C"] if q else ["A", "B", "C"]
+    cfgs = ["A", "C", "D"] if q else ["A", "B", "C", "D"]
     pre = common.wrap(preamble)
     for v in cfgs:
         ctx.mc("MCPara", "C17_mc%s.cfg" % v, timeout=2000)
